@@ -37,13 +37,14 @@ var (
 
 var (
 	knownOnce sync.Once
-	knownSig  map[string]string
-	knownWhat map[string]string
+	knownSig    map[string]string
+	knownWhat   map[string]string
+	knownAnchor map[string]bool // "kind|function" anchors of hang / death-exhaust findings
 )
 
 func loadKnown() {
 	knownOnce.Do(func() {
-		knownSig, knownWhat = map[string]string{}, map[string]string{}
+		knownSig, knownWhat, knownAnchor = map[string]string{}, map[string]string{}, map[string]bool{}
 		for _, f := range vt.OpenFindings(prop) {
 			knownWhat[f.ID] = f.What
 			i := strings.Index(f.Match, "signatures:")
@@ -54,6 +55,9 @@ func loadKnown() {
 				s = strings.TrimSpace(s)
 				if s != "" {
 					knownSig[s] = f.ID
+					if p := strings.SplitN(s, "|", 3); len(p) == 3 && (p[0] == "hang" || p[0] == "death-exhaust") {
+						knownAnchor[p[0]+"|"+p[1]] = true
+					}
 				}
 			}
 		}
@@ -94,6 +98,17 @@ func failuresOf(at attempt) []Failure {
 	if at.resp != nil {
 		for _, p := range at.resp.Panics {
 			f := Failure{Kind: "panic", Op: p.Op, Msg: p.Msg, Class: msgClass(p.Msg), Fn: "?"}
+			for _, fr := range p.Frames {
+				f.Frames = append(f.Frames, short(fr))
+			}
+			if len(f.Frames) > 0 {
+				f.Fn = fnOf(f.Frames[0])
+				f.Loc = locOf(f.Frames[0])
+			}
+			out = append(out, f)
+		}
+		for _, p := range at.resp.Big {
+			f := Failure{Kind: "bigalloc", Op: p.Op, Msg: p.Msg, Class: ">=64MiB block", Fn: "?"}
 			for _, fr := range p.Frames {
 				f.Frames = append(f.Frames, short(fr))
 			}
